@@ -257,11 +257,12 @@ def jret(x) -> str:
 class QSim:
     """A scratch database with the real SqliteQueue and one real thread per model client."""
 
-    def __init__(self, path: str, clients: list[str], qmax: int = QMAX) -> None:
+    def __init__(self, path: str, clients: list[str], qmax: int = QMAX, poison=()) -> None:
         from stabilize.queue.sqlite import SqliteQueue
 
         self.path = path
         self.qmax = qmax
+        self.poison = set(poison)      # messages whose stored payload is corrupted right after their push committed
         for suf in ("", "-journal", "-wal", "-shm"):
             try:
                 os.remove(path + suf)
@@ -309,6 +310,14 @@ class QSim:
             return datetime.fromisoformat(ts)
         return datetime.strptime(ts, "%Y-%m-%d %H:%M:%S").replace(tzinfo=UTC)
 
+    @staticmethod
+    def _mname(payload: str) -> str:
+        """logical message of a payload (also of a corrupted one: valid JSON followed by garbage)"""
+        try:
+            return json.JSONDecoder().raw_decode(payload)[0].get("execution_id", "?")
+        except Exception:  # noqa: BLE001
+            return "?"
+
     def image(self, ex) -> dict:
         """ex: callable(sql) -> rows; the image of the database as that connection sees it."""
         now = datetime.now(UTC)
@@ -317,15 +326,15 @@ class QSim:
                     "FROM queue_messages ORDER BY id"):
             lock = bool(r[4]) and self._parse(r[4]) > now
             delayed = self._parse(r[5]) > now + timedelta(seconds=120)
-            rows.append({"id": r[0], "msg": json.loads(r[1]).get("execution_id", "?"), "att": r[2], "maxAtt": r[3],
+            rows.append({"id": r[0], "msg": self._mname(r[1]), "att": r[2], "maxAtt": r[3],
                          "lock": lock, "delayed": delayed, "ver": r[6], "front": "T" not in r[5]})
             if not delayed:
                 order.append((r[5], r[0]))
         order.sort()
-        dlq = [{"id": r[0], "msg": json.loads(r[1]).get("execution_id", "?"), "att": r[2], "orig": r[3]}
+        dlq = [{"id": r[0], "msg": self._mname(r[1]), "att": r[2], "orig": r[3]}
                for r in ex("SELECT id, payload, attempts, original_id FROM queue_messages_dlq ORDER BY id")]
         seq = {r[0]: r[1] for r in ex("SELECT name, seq FROM sqlite_sequence")}
-        pushed = sorted({json.loads(r[0]).get("execution_id", "?")
+        pushed = sorted({self._mname(r[0])
                          for r in ex("SELECT DISTINCT payload FROM verif_led WHERE tbl = 'q' AND op = 'I'")})
         here = {x["msg"] for x in rows} | {x["msg"] for x in dlq}
         return {"rows": rows, "dlq": dlq, "nid": seq.get("queue_messages", 0) + 1,
@@ -377,6 +386,13 @@ class QSim:
             prev = c.parked
             op = c.op
             ev = c.advance()
+            if a == "Commit" and op == "push" and ev[0] == "ret" and getattr(c, "push_msg", None) in self.poison:
+                # a poison message: its stored type is one this build does not know (deserialize_message raises)
+                for rid, pl in self.raw.execute("SELECT id, payload FROM queue_messages").fetchall():
+                    if self._mname(pl) == c.push_msg:
+                        self.raw.execute("UPDATE queue_messages SET message_type = 'TypeOfANewerBuild' WHERE id = ?", (rid,))
+            if a == "Commit" and op == "poll" and ev[0] == "exc" and "nknown message type" in ev[1]:
+                return {"ev": ("ret", "poison"), "ret": jret(["poll", "poison"])}
             return {"ev": ev, "ret": self._ret_advance(a, c, op, prev, ev)}
         if a == "PushInsert":
             m = lab["ret"][0]
@@ -387,6 +403,7 @@ class QSim:
             else:
                 def fn(k):
                     k.q.push(self._msg(m), HOUR if arg else None)
+            c.push_msg = m
             ev = c.start_op("push", fn)
             return {"ev": ev, "ret": jret([m])}
         if a == "PollSelect":
@@ -482,11 +499,12 @@ def mvset(prefix: str, n: int, strings: bool = False) -> str:
 def make_cfg(nclients: int, nmsgs: int, switches: dict, *, replays=1, crashes=1, notfound=1, fifo=False,
              delayed=False, schema_max=SCHEMA_MAX, qmax=QMAX, strings=False, symmetry=False, invariants=(),
              properties=(), constraints=(), action_constraints=(), init="Init", next_="Next", spec=None,
-             postcondition=None, max_depth=None, view=True) -> str:
+             postcondition=None, max_depth=None, view=True, poison=0) -> str:
     c = {"Clients": mvset("c", nclients, strings), "Nobody": '"Nobody"' if strings else "Nobody",
          "Msgs": mvset("m", nmsgs, strings), "QMax": qmax, "SchemaMax": schema_max, "MaxReplays": replays,
          "MaxCrashes": crashes, "MaxNotFound": notfound, "Fifo": "TRUE" if fifo else "FALSE",
-         "DelayedPush": "TRUE" if delayed else "FALSE"}
+         "DelayedPush": "TRUE" if delayed else "FALSE",
+         "Poison": mvset("m", poison, strings) if poison else "{}"}       # the first `poison` messages have a corrupted payload
     c.update(switches)
     if max_depth is not None:
         c["MaxDepth"] = max_depth
@@ -730,10 +748,10 @@ def diff_obs(pred: dict, obs: dict) -> list[str]:
 
 
 def run_labels(path: str, clients: list[str], labels: list[dict], expected: list[dict] | None = None,
-               qmax: int = QMAX) -> dict:
+               qmax: int = QMAX, poison=()) -> dict:
     """Drive the real queue along `labels`.  Returns {'events': trace for TLC, 'mismatch': first
     difference from `expected` (predicted states) or None, 'diverged': str|None}."""
-    sim = QSim(path, clients, qmax)
+    sim = QSim(path, clients, qmax, poison)
     events, mismatch, diverged = [], None, None
     try:
         for i, lab in enumerate(labels):
@@ -984,14 +1002,15 @@ def _w_init(base: str, env: dict | None = None) -> None:
 def w_replay_walks(args) -> dict:
     """walks: [[(label json, predicted state json), ...], ...] -> per walk the number of steps that
     conformed, and the failures."""
-    clients, walks = args
+    clients, walks = args[0], args[1]
+    poison = args[2] if len(args) > 2 else ()
     res = {"walks": 0, "steps": 0, "ok_steps": [], "bad": []}
     for w in walks:
         labels = [json.loads(js) for js, _ in w]
         exp = [predicted_obs(json.loads(st)) for _, st in w]
-        r = run_labels(_W["db"], clients, labels, exp)
+        r = run_labels(_W["db"], clients, labels, exp, poison=poison)
         if r["mismatch"] or r["diverged"]:
-            r2 = run_labels(_W["db"], clients, labels, exp)      # must be reproducible to count
+            r2 = run_labels(_W["db"], clients, labels, exp, poison=poison)      # must be reproducible to count
             if not (r2["mismatch"] or r2["diverged"]):
                 r = r2
         res["walks"] += 1
@@ -1069,6 +1088,8 @@ def plan(tier: str) -> dict:
          dict(nclients=2 if q else 3, nmsgs=2, replays=1, crashes=1, notfound=1, schema_max=QMAX, symmetry=True),
          SAFETY, ACTIONP, 3 if q else 5),
     ]
+    mc += [("intended-2c2m-poison", INTENDED, dict(nclients=2, nmsgs=2, replays=1, crashes=1, notfound=1, schema_max=QMAX,
+                                                   poison=1, symmetry=False), SAFETY, ACTIONP, 4)]
     if q:
         mc += [("ascoded-3c1m-q3", AS_CODED, dict(nclients=3, nmsgs=1, replays=1, crashes=1, notfound=1, qmax=3,
                                                   symmetry=True), SAFETY_K, ACTIONP_K, 4),
@@ -1098,6 +1119,8 @@ def plan(tier: str) -> dict:
             ("g2c1m-replay", 2, 1, dict(replays=1, crashes=0, notfound=1), 0.3),
             ("g2c1m-crash", 2, 1, dict(replays=1, crashes=1, notfound=0, delayed=True), 0.2),
             ("g2c2m", 2, 2, dict(replays=0, crashes=0, notfound=0), 0.2),
+            # a message of a type this build does not know: claimed, poll_one raises, swept at its limit, replayed unchanged
+            ("g2c1m-poison", 2, 1, dict(replays=1, crashes=0, notfound=0, poison=1), 0.15),
         ]
     else:
         graphs = [
@@ -1107,6 +1130,8 @@ def plan(tier: str) -> dict:
             ("g3c1m-replay", 3, 1, dict(replays=1, crashes=0, notfound=0), None),
             ("g2c2m", 2, 2, dict(replays=0, crashes=0, notfound=0, delayed=True), None),
             ("g2c1m-c2r2", 2, 1, dict(replays=2, crashes=2, notfound=1, delayed=True), None),
+            ("g2c1m-poison", 2, 1, dict(replays=2, crashes=1, notfound=1, poison=1), None),
+            ("g2c2m-poison", 2, 2, dict(replays=1, crashes=0, notfound=0, poison=1), None),
         ]
     if os.environ.get("VERIF_C08_BINDING_ONLY"):     # development aid (mutation runs): skip pure model checking
         mc, live = [], []
@@ -1293,7 +1318,8 @@ def run(pid: str, tier: str, seed: int) -> int:
                         exhausted = True
                         break
                     payload = [[(js, g.states[k2]) for _, js, k2 in w] for w in ch]
-                    pending.append((ch, the_pool.apply_async(w_replay_walks, ((clients, payload),))))
+                    pois = [f"m{i}" for i in range(1, gi["kw"].get("poison", 0) + 1)]
+                    pending.append((ch, the_pool.apply_async(w_replay_walks, ((clients, payload, pois),))))
                 if not pending:
                     break
                 ch, fut = pending.pop(0)
